@@ -29,6 +29,7 @@ import EinxModel.Driver.Lower
 import EinxModel.Driver.Lower2
 import EinxModel.Driver.Xlate
 import EinxModel.Driver.Exec
+import EinxModel.Driver.AtLower
 /-! Line-protocol driver: one JSON request per input line, one JSON answer per output line. -/
 open Lean Einx.Driver
 
@@ -64,6 +65,7 @@ def dispatch (j : Json) : R Json := do
   | "lower_generic" => Einx.Driver.Lower2.handle j
   | "xlate_stb" | "xlate_diag" | "xlate_ids" | "xlate_unravel" | "py_prelude" => Einx.Driver.Xlate.handle j
   | "exec_check" => Einx.Driver.Exec.handle j
+  | "lower_at" => Einx.Driver.AtLower.handle j
   | "update_denote" | "update_lower" | "update_get" | "update_addr" | "np_put" | "np_ufunc_at" | "assignments" =>
     Einx.Driver.Update.handle j
   | k => throw s!"unknown kind {k}"
